@@ -35,12 +35,18 @@ type c09Case struct {
 	N       int    `json:"n"`
 	Sizes   []int  `json:"sizes"`             // encoded sizes of the limited direction's messages
 	Hostile string `json:"hostile,omitempty"` // "", gzip-bomb, gzip-small, lie-huge, lie-64m
+	// Persist: the handler keeps calling Receive after a failed one (a batching
+	// loop) and finally returns what the stream itself reports as its error.
+	Persist bool `json:"persist,omitempty"`
 }
 
 func (k c09Case) key() string {
 	side := "handler"
 	if k.Client {
 		side = "client"
+	}
+	if k.Persist {
+		side += "/receives-again-after-failure"
 	}
 	return fmt.Sprintf("%s/%s/%s/N%d/%v/%s", k.Proto, k.Kind, side, k.N, k.Sizes, k.Hostile)
 }
@@ -119,6 +125,31 @@ func c09Check(c *ev.Collector, k c09Case) {
 		hopts = append(hopts, connect.WithReadMaxBytes(k.N))
 	}
 	h := NewHandler(k.Kind, func(ctx context.Context, s HStream) error {
+		if k.Persist {
+			var first error
+			for tries := 0; tries < len(k.Sizes)+3; tries++ {
+				m, err := s.Receive()
+				if err != nil {
+					if errors.Is(err, io.EOF) {
+						break
+					}
+					if first == nil {
+						first = err
+					}
+					continue
+				}
+				userSaw = append(userSaw, cloneBytes(m.Value))
+			}
+			if fe, ok := s.(interface{ FinalErr() error }); ok {
+				// client stream: `return nil, stream.Err()` at the end of the loop
+				if err := fe.FinalErr(); err != nil {
+					return err
+				}
+			} else if first != nil {
+				return first
+			}
+			return s.Send(&BV{Value: []byte{1}})
+		}
 		for {
 			m, err := s.Receive()
 			if err != nil {
@@ -174,7 +205,7 @@ func c09Check(c *ev.Collector, k c09Case) {
 			// the client of a handler-side limit sees the handler's error
 			viol("oversize-fails-call", "code="+classifyErr(res.Err), "oversize message: call failed with %v, want invalid_argument", res.Err)
 		}
-		if len(userSaw) > firstBad {
+		if len(userSaw) > firstBad && !k.Persist {
 			viol("oversize-never-delivered", "too-many", "application saw %d messages, only the first %d were within the limit", len(userSaw), firstBad)
 		}
 	} else {
@@ -434,6 +465,9 @@ func c09Cases(thorough bool) (normal, hostile []c09Case) {
 						seq := []int{okSize, 0, okSize}
 						seq[pos] = badSize
 						normal = append(normal, c09Case{Proto: p, Kind: streamKind, Client: client, N: n, Sizes: seq})
+						if !client {
+							normal = append(normal, c09Case{Proto: p, Kind: KClient, N: n, Sizes: seq, Persist: true}, c09Case{Proto: p, Kind: KBidi, N: n, Sizes: seq, Persist: true})
+						}
 						if thorough {
 							normal = append(normal, c09Case{Proto: p, Kind: KBidi, Client: client, N: n, Sizes: seq})
 						}
